@@ -15,7 +15,7 @@ for d in $(ls /verif/seeded | grep "^$pat" | sort); do
   id=${d%%_*}
   if ! git -C $S/repo apply /verif/seeded/$d/patch.diff 2>/dev/null; then echo "$d PATCH-DOES-NOT-APPLY" >> $out.new; continue; fi
   t0=$(date +%s)
-  line=$(cd $S/verif && timeout 1500 /venv/bin/python tools/check.py $id --tier quick 2>&1 | grep -m1 "^VIOLATION")
+  line=$(cd $S/verif && timeout 3000 /venv/bin/python tools/check.py $id --tier quick 2>&1 | grep -m1 "^VIOLATION")
   t1=$(date +%s)
   git -C $S/repo checkout -q -- . ; git -C $S/repo clean -fdq
   if [ -z "$line" ]; then echo "$d MISSED ($((t1-t0))s)" >> $out.new
